@@ -2,8 +2,9 @@
 EXTENDS Ods
 SmallChars == {"a", "sp", "nl"}
 AllChars == {"a", "b", "sp", "tab", "nl", "lt", "e9"}
-AllFeatures == SUBSET {"colruns", "rowruns", "selems", "spans", "paras"}
-SomeFeatures == {{}, {"colruns"}, {"rowruns"}, {"selems"}, {"spans"}, {"paras"}, {"colruns", "rowruns", "selems", "spans", "paras"}}
+AllFeatures == SUBSET {"colruns", "rowruns", "selems", "spans", "paras", "notes"}
+SomeFeatures == {{}, {"colruns"}, {"rowruns"}, {"selems"}, {"spans"}, {"paras"}, {"notes"},
+                 {"colruns", "rowruns", "selems", "spans", "paras", "notes"}}
 NoRowRuns == {f \in AllFeatures : "rowruns" \notin f}
 OneSheet == {<<1, 1>>}
 AllSheets == {<<n, k>> : n \in 0..3, k \in 1..4}          \* (a document may hold no sheet at all)
